@@ -307,6 +307,7 @@ impl Interpreter {
             data_cursor: None,
             functions: vec![],
             rng_state: self.rng.verif_state(),
+            nesting_depth: 0,
             variables: self.variables.verif_entries(),
             arrays: self.arrays.verif_entries(),
             enable_warnings: self.enable_warnings,
